@@ -157,102 +157,309 @@ def r3_keys(rep, src):
         rep.fail('C05.R3', f.site, 'original spelling of an existing field is kept', 'the new field text is not built from the existing field\'s spelling', where=f.where)
 
 
+def _stores_into_self(target_text):
+    """the store target is an attribute / item of self itself (not of an object obtained through a call)"""
+    try:
+        n = ast.parse(target_text, mode='eval').body
+    except SyntaxError:
+        return False
+    while isinstance(n, (ast.Attribute, ast.Subscript)):
+        n = n.value
+    return isinstance(n, ast.Name) and n.id == 'self'
+
+
 def r4_validate_before_commit(rep, src):
+    """set_field_from_raw_string, helpers inlined, unfolded into paths: every path that reaches the commit
+    (self.set_kvpair_element) has run the per-line checks (decided as languages of accepted lines), has passed the
+    "last line is not a comment" test and the syntax-error test on the re-parsed text, and has stored nothing in
+    self before."""
+    from .. import paths, normalize
     f = src.func(PM + ':Deb822ParagraphElement.set_field_from_raw_string')
     rep.saw_func(f)
-    g = cfg.CFG(f.node)
-    commits = [g.node_for(c) for c in ast.walk(f.node) if isinstance(c, ast.Call) and norm(c.func) == 'self.set_kvpair_element']
-    if len(commits) != 1:
-        raise AnalysisError('%s: expected one commit call' % f.site)
-    cm = commits[0]
-    need = {
-        'every line ends with a newline': lambda n: n.kind == 'test' and "not line.endswith('\\n')" in norm(n.ast),
-        'continuation lines start with blank or #': lambda n: n.kind == 'test' and 'line[0] not in' in norm(n.ast),
-        'last line is not a comment': lambda n: n.kind == 'test' and "raw_lines[-1].startswith('#')" in norm(n.ast),
-        're-parse of the new field': lambda n: n.kind == 'stmt' and 'parse_deb822_file(' in norm(n.ast),
-        'syntax errors are rejected': lambda n: n.kind == 'test' and norm(n.ast) in ('error_token', 'error_token is not None'),
-    }
-    for what, pred in need.items():
-        nodes = [n for n in g.nodes if n.ast is not None and pred(n)]
-        ok = False
-        for n in nodes:
-            if n.kind == 'test':
-                tsucc = [d for d, lab in g.succ[n.id] if lab is True]
-                # the failing outcome must end in `raise ValueError` and never reach the commit
-                reach_raise = [r for r in g.nodes if r.kind == 'raise' and 'ValueError' in norm(r.ast) and any(d == r.id or g.exists_path(d, r.id, avoid=[n.id]) for d in tsucc)]
-                if not reach_raise or any(g.exists_path(d, cm.id, avoid=[n.id]) for d in tsucc):
-                    continue
-            # loop-internal checks dominate through the loop head
-            if g.dominates(n.id, cm.id) or (n.kind == 'test' and any(g.dominates(t.id, cm.id) for t in g.nodes if t.kind == 'fortest' and g.exists_path(t.id, n.id) and g.exists_path(n.id, t.id))):
-                ok = True
-        if ok:
-            rep.ok('C05.R4', f.site, what, 'precedes the commit on every path')
+    fnode, _inl = normalize.inline_helpers(f)
+    alpha = rx.alphabet('str')
+    anyl = rx.regex_lang('(?s:.*)', 0, 'fullmatch', alpha=alpha)
+    line_loops = []
+
+    def loop_handler(en, st, path):
+        # for i, line in enumerate(<lines>, start=1):  /  for line in <lines>:
+        if not isinstance(st, ast.For) or st.orelse:
+            return None
+        it = paths.subst(st.iter, path.env)
+        ivar, lvar, start = None, None, 0
+        if isinstance(it, ast.Call) and norm(it.func) == 'enumerate' and isinstance(st.target, ast.Tuple) and len(st.target.elts) == 2:
+            ivar, lvar = st.target.elts[0].id, st.target.elts[1].id
+            start = 0
+            for k in it.keywords:
+                if k.arg == 'start' and isinstance(k.value, ast.Constant):
+                    start = k.value.value
+            if len(it.args) > 1 and isinstance(it.args[1], ast.Constant):
+                start = it.args[1].value
+            seq = it.args[0]
+        elif isinstance(st.target, ast.Name):
+            lvar, seq = st.target.id, it
         else:
-            rep.fail('C05.R4', f.site, what, 'the new field can be stored in the paragraph without this check (an invalid value corrupts the document instead of raising ValueError)',
-                     where=f.where)
-    # nothing is stored before: no other mutation of self
-    muts = [n for n in g.stmts() if n.kind == 'stmt' and n.id != cm.id and g.exists_path(n.id, cm.id) and isinstance(n.ast, ast.Assign)
-            and any(isinstance(t, (ast.Attribute, ast.Subscript)) and norm(t).startswith('self.') for t in n.ast.targets)]
-    if muts:
-        rep.fail('C05.R4', f.site, 'nothing stored before validation', 'the paragraph is modified (`%s`) before the new value has been validated' % norm(muts[0].ast)[:50], where=f.where)
-    else:
-        rep.ok('C05.R4', f.site, 'nothing stored before validation', 'no store to self before the commit call')
-    t = norm(f.node)
-    if 'value.comment_element = original.comment_element\n            original.comment_element = None' in t and \
-            g.dominates(g.node_for([x for x in ast.walk(f.node) if isinstance(x, ast.Assign) and norm(x.targets[0]) == 'value.comment_element'][0]).id, cm.id) is not None:
+            return None
+        if 'splitlines' not in norm(seq):
+            return None
+        accepted = {}
+        for first in (True, False):
+            def atom(e, first=first):
+                # tests on the line number
+                if ivar is not None and isinstance(e, ast.Compare) and len(e.ops) == 1 and norm(e.left) == ivar and isinstance(e.comparators[0], ast.Constant):
+                    k = e.comparators[0].value
+                    op = type(e.ops[0])
+                    if first:
+                        return {ast.Eq: start == k, ast.NotEq: start != k, ast.Gt: start > k, ast.GtE: start >= k, ast.Lt: start < k, ast.LtE: start <= k}.get(op)
+                    if k == start:
+                        return {ast.Eq: False, ast.NotEq: True, ast.Gt: True, ast.GtE: True, ast.Lt: False, ast.LtE: False}.get(op)
+                    if k == start + 1:
+                        return {ast.GtE: True, ast.Lt: False}.get(op)
+                return None
+            sub = paths.Enumerator(paths.Folder(paths.module_consts(f.module, f.cls or ''), atom))
+            p0 = paths.Path()
+            p0.env = {k: v for k, v in path.env.items() if k not in (ivar, lvar)}
+            acc = anyl.complement()
+            for bp in sub.run(st.body, [p0]):
+                if bp.outcome is not None and bp.outcome[0] == 'raise':
+                    continue
+                if bp.outcome is not None and bp.outcome[0] not in ('continue',):
+                    raise AnalysisError('%s: the line loop is left by %s' % (f.site, bp.outcome[0]))
+                lang = anyl
+                for t, pol in bp.conds:
+                    if ivar is not None and any(isinstance(n, ast.Name) and n.id == ivar for n in ast.walk(t)):
+                        raise AnalysisError('%s: line-number test outside the vocabulary: %s' % (f.site, norm(t)))
+                    pl = strlang.pred_lang(t, lvar, alpha)
+                    lang = lang.intersect(pl if pol else pl.complement())
+                acc = acc.union(lang)
+            accepted[first] = acc
+        info = dict(seq=norm(seq), accepted=accepted, node=st)
+        line_loops.append(info)
+        path.events.append(('lines', info, st))
+        return [path]
+    ps = paths.function_paths(fnode, paths.Folder(paths.module_consts(f.module, f.cls or '')), loop_handler)
+    rep.analysed['paths'] += len(ps)
+
+    def is_commit(ev):
+        return ev[0] == 'effect' and isinstance(ev[1], ast.Expr) and isinstance(ev[1].value, ast.Call) and norm(ev[1].value.func) == 'self.set_kvpair_element'
+    committing = [p_ for p_ in ps if any(is_commit(e) for e in p_.events)]
+    if not committing:
+        raise AnalysisError('%s: no path reaches self.set_kvpair_element' % f.site)
+    nl_end = rx.regex_lang(r'(?s:.*)\n', 0, 'fullmatch', alpha=alpha)
+    cont = rx.regex_lang(r'[ \t#](?s:.*)', 0, 'fullmatch', alpha=alpha)
+    res = {'every line ends with a newline': True, 'continuation lines start with blank or #': True, 'last line is not a comment': True,
+           're-parse of the new field': True, 'syntax errors are rejected': True, 'nothing stored before validation': True}
+    why = {}
+    for p_ in committing:
+        idx = [i for i, e in enumerate(p_.events) if is_commit(e)][0]
+        before = p_.events[:idx]
+        loops = [e for e in before if e[0] == 'lines']
+        if not loops:
+            res['every line ends with a newline'] = res['continuation lines start with blank or #'] = False
+        for e in loops[:1]:
+            acc = e[1]['accepted']
+            w = acc[True].union(acc[False]).not_subset_witness(nl_end)
+            if w is not None:
+                res['every line ends with a newline'] = False
+                why['every line ends with a newline'] = 'the line %r is accepted' % w
+            w = acc[False].not_subset_witness(cont)
+            if w is not None:
+                res['continuation lines start with blank or #'] = False
+                why['continuation lines start with blank or #'] = 'the later line %r is accepted' % w
+        lits = [(norm(t), pol) for t, pol in p_.conds]
+        seqs = {e[1]['seq'] for e in loops}
+        last_ok = any(("[-1].startswith('#')" in t and not pol) for t, pol in lits) or any((t.startswith('len(') and '> 1' in t and not pol) for t, pol in lits)
+        if not last_ok:
+            res['last line is not a comment'] = False
+        syn = [(t, pol) for t, pol in lits if 'find_first_error_element' in t or 'error' in t.lower() and 'parse_deb822_file' in t]
+        if not any('parse_deb822_file(' in t for t, pol in syn):
+            res['re-parse of the new field'] = False
+        if not syn or any(pol for t, pol in syn if not t.startswith('not ')):
+            res['syntax errors are rejected'] = False
+        if any(e[0] == 'store' and _stores_into_self(e[1]) for e in before):
+            res['nothing stored before validation'] = False
+        _ = seqs
+    # the rejecting sides raise ValueError
+    for p_ in ps:
+        if p_.outcome[0] == 'raise' and p_.conds:
+            t, pol = p_.conds[-1]
+            tt = norm(t)
+            if ('find_first_error_element' in tt or "[-1].startswith('#')" in tt) and 'ValueError' not in norm(p_.outcome[1]):
+                res['syntax errors are rejected'] = False
+    for what, ok in res.items():
+        if ok:
+            rep.ok('C05.R4', f.site, what, 'holds on all %d committing paths' % len(committing))
+        else:
+            rep.fail('C05.R4', f.site, what, 'the new field can be stored in the paragraph without this check (an invalid value corrupts the document instead of raising ValueError)%s'
+                     % ((': ' + why[what]) if what in why else ''), where=f.where)
+    # comment of a replaced field: handed over before the commit on the paths that keep the original comment
+    ok = False
+    for p_ in committing:
+        idx = [i for i, e in enumerate(p_.events) if is_commit(e)][0]
+        stores = [(e[1], norm(e[2])) for e in p_.events[:idx] if e[0] == 'store']
+        if any(tgt.endswith('.comment_element') and val.endswith('.comment_element') and 'get_kvpair_element(item' in val.replace(' ', '') for tgt, val in stores):
+            ok = True
+    if ok:
         rep.ok('C05.R4', f.site, 'comment of a replaced field is handed over', 'value.comment_element = original.comment_element before the commit')
     else:
         rep.fail('C05.R4', f.site, 'comment of a replaced field is handed over', 'the comment lines of a replaced field are not moved to the new field', where=f.where)
 
 
 def r5_setitem_routing(rep, src):
+    """__setitem__ of the string wrapper, interpreted on the cases of the value
+         A: F            B1: F \\n          B2: F \\n R \\n          B3: F \\n R'   (F newline-free, R' non-empty without final newline)
+    for every combination of the two whitespace-mapping switches; the calls made on the paragraph are compared with
+    the specification (single-line setter with the trimmed value iff there is no newline; otherwise the raw setter with
+    ' ' + F.strip() + '\\n' + rest, completed by a final newline when allowed, ValueError when not)."""
+    from .. import heap as H, symstr
+    from ..symstr import SStr
     f = src.func(PM + ':Deb822ParagraphToStrWrapperMixin.__setitem__')
     rep.saw_func(f)
-    alpha = rx.alphabet('str')
-    value = f.params()[2]
-    blocks = [n for n in f.node.body if isinstance(n, ast.If) and norm(n.test) == 'self._auto_map_initial_line_whitespace']
-    if len(blocks) != 1:
-        raise AnalysisError('%s: whitespace-mapping block not found' % f.site)
-    blk = blocks[0]
-    routing = [s for s in blk.body if isinstance(s, ast.If) and any(isinstance(c, ast.Call) and norm(c.func).endswith('set_field_to_simple_value') for c in ast.walk(s))]
-    if len(routing) != 1:
-        raise AnalysisError('%s: routing test not found' % f.site)
-    test = routing[0].test
-    # idiom: idx = value.index("\n") / -1 ; idx == -1 or idx == len(value)
-    has_idx = any(isinstance(s, ast.Try) and "idx = %s.index('\\n')" % value in norm(s) and 'idx = -1' in norm(s) for s in blk.body)
-    nonl = rx.regex_lang(r'[^\n]*', 0, 'fullmatch', alpha=alpha)
-    if has_idx and norm(test) in ('idx == -1 or idx == len(%s)' % value, 'idx == -1', 'idx < 0'):
-        single = nonl
-    else:
-        single = strlang.pred_lang(test, value, alpha)
-    w = single.equiv_witness(nonl)
-    if w is None:
-        rep.ok('C05.R5', f.site, 'single-line path ⟺ no newline in the value', 'routing predicate language = [^\\n]*')
-    else:
-        rep.fail('C05.R5', f.site, 'single-line path ⟺ no newline in the value',
-                 'the value %r is %s: %s' % (w[1], 'sent to the single-line setter although it contains a newline' if w[0] == 'left-only' else 'not sent to the single-line setter',
-                                              'its line structure is flattened (the field reads back with a different value)' if w[0] == 'left-only'
-                                              else 'value.split("\\n", 1) fails on it'), detail={'witness': w[1]}, where=f.where)
-    t = norm(f.node)
-    call = [c for c in ast.walk(routing[0]) if isinstance(c, ast.Call) and norm(c.func).endswith('set_field_to_simple_value')][0]
-    if len(call.args) >= 2 and norm(call.args[1]) == '%s.strip()' % value and norm(call.args[0]) == f.params()[1]:
-        rep.ok('C05.R5', f.site, 'single-line value is passed trimmed', 'set_field_to_simple_value(item, value.strip())', nontrivial=False)
-    else:
-        rep.fail('C05.R5', f.site, 'single-line value is passed trimmed', 'the single-line setter does not receive (item, value.strip())', where=f.where)
-    if "first_line, rest = %s.split('\\n', 1)" % value in t and "%s = ''.join((' ', first_line.strip(), '\\n', rest))" % value in t:
-        rep.ok('C05.R5', f.site, 'multi-line value: first line normalised, rest verbatim', "' ' + first.strip() + '\\n' + rest")
-    else:
-        rep.fail('C05.R5', f.site, 'multi-line value: first line normalised, rest verbatim', 'the continuation lines are not passed on verbatim after the first line', where=f.where)
-    if "if not %s.endswith('\\n'):" % value in t and "%s += '\\n'" % value in t and 'self._paragraph.set_field_from_raw_string(' in t:
-        rep.ok('C05.R5', f.site, 'final newline supplied, then raw setter', 'ok', nontrivial=False)
-    else:
-        rep.fail('C05.R5', f.site, 'final newline supplied, then raw setter', 'a multi-line value without final newline is not completed before it is stored', where=f.where)
+    F = symstr.atom('F', r'[^\n]*')
+    R = symstr.atom('R', r'(?s:.*)')
+    Rx = symstr.atom("R'", r'(?s:.*)[^\n]')
+    cases = {'F': F, 'F\\n': F + '\n', 'F\\nR\\n': F + '\n' + R + '\n', "F\\nR'": F + '\n' + Rx}
+    item = H.Key('k', 'Key')
+    for map_ws in (True, False):
+        for map_nl in (True, False):
+            for cname, value in cases.items():
+                calls = []
+
+                def simple(it, args, kw, calls=calls):
+                    calls.append(('simple', args[1:], kw))
+
+                def raw(it, args, kw, calls=calls):
+                    calls.append(('raw', args[1:], kw))
+                heap = H.Heap(src.mod(PM), hooks={'.set_field_to_simple_value': simple, '.set_field_from_raw_string': raw})
+                heap.symbolic_strings = True
+                para = heap.alloc('Paragraph', {}, name='@paragraph')
+                me = heap.alloc('Deb822ParagraphToStrWrapperMixin', {
+                    '_preserve_field_comments_on_field_updates': False, '_auto_resolve_ambiguous_fields': False,
+                    '_auto_map_initial_line_whitespace': map_ws, '_auto_map_final_newline_in_multiline_values': map_nl,
+                    '_paragraph': para}, name='@wrapper')
+                what = 'value %s, whitespace mapping %s, final-newline mapping %s' % (cname, 'on' if map_ws else 'off', 'on' if map_nl else 'off')
+                it = H.Interp(heap)
+                exc = None
+                try:
+                    it.call(H.Closure(f.node, {}, me, f.cls), [item, value])
+                except H.Raised as x:
+                    exc = x.exc
+                # specification
+                multiline = cname != 'F'
+                ends = cname in ('F\\n', 'F\\nR\\n')
+                if map_ws and not multiline:
+                    want = ('simple', F.strip())
+                else:
+                    if map_ws:
+                        body = {'F\\n': SStr([' ', F.strip(), '\n']), 'F\\nR\\n': SStr([' ', F.strip(), '\n', R, '\n']), "F\\nR'": SStr([' ', F.strip(), '\n', Rx])}[cname]
+                    else:
+                        body = value
+                    if ends:
+                        want = ('raw', body)
+                    elif map_nl:
+                        want = ('raw', body + '\n')
+                    else:
+                        want = ('ValueError', None)
+                if want[0] == 'ValueError':
+                    if exc == 'ValueError' and not calls:
+                        rep.ok('C05.R5', f.site, what, 'ValueError, nothing stored')
+                    else:
+                        rep.fail('C05.R5', f.site, what, 'a multi-line value without final newline must be refused with ValueError before anything is stored (got %s)'
+                                 % (exc or ['%s(%r)' % (c[0], c[1]) for c in calls]), where=f.where)
+                    continue
+                if exc is not None:
+                    rep.fail('C05.R5', f.site, what, 'raises %s' % exc, where=f.where)
+                    continue
+                if len(calls) != 1:
+                    rep.fail('C05.R5', f.site, what, 'the paragraph is updated %d times: %r' % (len(calls), [c[0] for c in calls]), where=f.where)
+                    continue
+                kind, args, _kw = calls[0]
+                got = args[1] if len(args) > 1 else None
+                if kind != want[0]:
+                    rep.fail('C05.R5', f.site, what, ('the value is sent to the single-line setter although it contains a newline: its line structure is flattened'
+                                                     if kind == 'simple' else 'a value without newline is not sent to the single-line setter'), where=f.where)
+                elif not (isinstance(args[0], H.Key) and args[0].cls == 'k'):
+                    rep.fail('C05.R5', f.site, what, 'the field name is not passed on', where=f.where)
+                elif not isinstance(got, (SStr, str)) or not symstr.lift(got).same(want[1]):
+                    rep.fail('C05.R5', f.site, what, 'the paragraph receives %r; specified: %r (first line trimmed, continuation lines verbatim)' % (got, want[1]), where=f.where)
+                else:
+                    rep.ok('C05.R5', f.site, what, '%s(%r)' % (kind, got))
+    # a replaced field keeps its comment: with comment preservation on (and ambiguous fields auto-resolved) the comment
+    # element of the old field is handed to the setter as the object itself, not re-rendered from text
+    for cname, value in (('F', F), ('F\\nR\\n', F + '\n' + R + '\n')):
+        calls = []
+
+        def simple3(it, args, kw, calls=calls):
+            calls.append(('simple', args[1:], kw))
+
+        def raw3(it, args, kw, calls=calls):
+            calls.append(('raw', args[1:], kw))
+        touched = []
+
+        def read_comment(it, args, kw, touched=touched):
+            if args and args[0] == it.h.comment:
+                touched.append(True)
+                raise H.Raised('comment-content-read', it.h.version, 0)
+            return NotImplemented
+        heap = H.Heap(src.mod(PM), hooks={'.set_field_to_simple_value': simple3, '.set_field_from_raw_string': raw3,
+                                          '.get_kvpair_element': lambda it, args, kw: it.h.kv,
+                                          '.convert_to_text': read_comment, '.iter_tokens': read_comment, '.iter_parts': read_comment, '.dump': read_comment})
+        heap.symbolic_strings = True
+        comment = heap.alloc('Deb822CommentElement', {}, name='@comment')
+        heap.comment = comment
+        heap.kv = heap.alloc('Deb822KeyValuePairElement', {'comment_element': comment}, name='@old_field')
+        para = heap.alloc('Paragraph', {}, name='@paragraph')
+        me = heap.alloc('Deb822ParagraphToStrWrapperMixin', {
+            '_preserve_field_comments_on_field_updates': True, '_auto_resolve_ambiguous_fields': True,
+            '_auto_map_initial_line_whitespace': True, '_auto_map_final_newline_in_multiline_values': True, '_paragraph': para}, name='@wrapper')
+        what = 'value %s: the comment of the replaced field is kept' % cname
+        it = H.Interp(heap)
+        try:
+            it.call(H.Closure(f.node, {}, me, f.cls), [item, value])
+        except H.Raised as x:
+            if touched:
+                rep.fail('C05.R5', f.site, what, 'the comment of the replaced field is converted to text and re-rendered instead of being handed over as the '
+                         'element itself: its exact bytes (e.g. trailing blanks of a comment line) are not preserved', where=f.where)
+            else:
+                rep.fail('C05.R5', f.site, what, 'raises %s' % x.exc, where=f.where)
+            continue
+        if len(calls) == 1 and calls[0][2].get('field_comment') == comment and calls[0][2].get('preserve_original_field_comment') in (None, False):
+            rep.ok('C05.R5', f.site, what, 'field_comment is the old field\'s comment element itself')
+        elif len(calls) == 1 and calls[0][2].get('preserve_original_field_comment') is True and calls[0][2].get('field_comment') is None:
+            rep.ok('C05.R5', f.site, what, 'the setter is asked to preserve the original comment')
+        else:
+            rep.fail('C05.R5', f.site, what, 'the comment lines of the replaced field are not handed over unchanged (the setter receives field_comment=%r): '
+                     'a comment that is re-rendered from text loses its exact bytes' % (calls[0][2].get('field_comment') if calls else None,), where=f.where)
+    # the single-line setter: newline refused, ' ' + value + '\n' handed to the raw setter
     s = src.func(PM + ':Deb822ParagraphElement.set_field_to_simple_value')
-    st = norm(s.node)
-    if "if '\\n' in simple_value:" in st and "raw_value = ' ' + simple_value.strip() + '\\n'" in st and 'self.set_field_from_raw_string(' in st:
-        rep.ok('C05.R5', s.site, 'simple value → " value\\n"', 'newline rejected, one blank + value + newline')
-    else:
-        rep.fail('C05.R5', s.site, 'simple value → " value\\n"', 'set_field_to_simple_value does not reject newlines / build " " + value + "\\n"', where=s.where)
+    rep.saw_func(s)
+    V = symstr.atom('V', r'[^\n]*')
+    W = symstr.atom('W', r'(?s:.*)\n(?s:.*)')
+    for cname, value in (('V (no newline)', V), ('W (contains a newline)', W)):
+        calls = []
+
+        def raw2(it, args, kw, calls=calls):
+            calls.append(args[1:])
+        heap = H.Heap(src.mod(PM), hooks={'.set_field_from_raw_string': raw2})
+        heap.symbolic_strings = True
+        para = heap.alloc('Deb822ParagraphElement', {}, name='@paragraph')
+        it = H.Interp(heap)
+        exc = None
+        try:
+            it.call(H.Closure(s.node, {}, para, s.cls), [item, value], {'preserve_original_field_comment': None, 'field_comment': None})
+        except H.Raised as x:
+            exc = x.exc
+        what = 'simple value %s' % cname
+        if cname.startswith('W'):
+            if exc == 'ValueError' and not calls:
+                rep.ok('C05.R5', s.site, what, 'ValueError')
+            else:
+                rep.fail('C05.R5', s.site, what, 'a value with a newline is not refused by the single-line setter', where=s.where)
+        elif exc is None and len(calls) == 1 and len(calls[0]) > 1 and isinstance(calls[0][1], (SStr, str)) \
+                and symstr.lift(calls[0][1]).same(SStr([' ', V.strip(), '\n'])):
+            rep.ok('C05.R5', s.site, what, "raw value ' ' + V.strip() + '\\n'")
+        else:
+            rep.fail('C05.R5', s.site, what, 'set_field_to_simple_value does not build " " + value + "\\n" (got %s)' % (exc or calls), where=s.where)
 
 
 def check(src, rep, tier):
